@@ -1,3 +1,5 @@
+-- Root of the library. The property modules are built one by one (`lake build DhtVerif.Props.Cxx`):
+-- their helper-lemma files are written independently and may reuse names, so they are not imported together.
 import DhtVerif.Model.Int160
 import DhtVerif.Model.Order
 import DhtVerif.Model.Containers
